@@ -101,7 +101,7 @@ MemDepInflight(prog, fin) ==
     /\ (IsStoreAt(prog, fin, i) \/ IsLoadAt(prog, fin, i)) /\ (IsStoreAt(prog, fin, j) \/ IsLoadAt(prog, fin, j))
     /\ LineOf(fin.ev[i].a) = LineOf(fin.ev[j].a)
 
-(* F04b (MVP-6.3 .. 8, >= 2 units): a younger instruction that overwrites r is renamed  *)
+(* F04b (MVP-6.3 and 7.0, >= 3 units): a younger instruction that overwrites r is renamed  *)
 (* and completes while an older reader of r is still waiting for a forwarded load      *)
 (* value; operands are read without the reader's tag, so the reader sees the younger   *)
 (* value.  Masks: i reads r and a register loaded at most 10 instructions earlier, and *)
@@ -112,7 +112,7 @@ WarRenamed(prog, fin) ==
     /\ (Reads(prog, fin, i) \cap Writes(prog, fin, j)) # {}
     /\ \E h \in 1 .. (i - 1) : i - h <= 10 /\ IsLoadAt(prog, fin, h) /\ (Writes(prog, fin, h) \cap Reads(prog, fin, i)) # {}
 
-(* F03b (MVP-6.1 .. 8, >= 2 units): a conditional branch that waits for a loaded value  *)
+(* F03b (MVP-6.1 .. 6.3 with >= 2 units, MVP-7.0 .. 8 with >= 3 cores): a conditional branch that waits for a loaded value  *)
 (* resolves late; instructions fetched after it have already been dispatched to other  *)
 (* units and some of their effects survive the flush (register writes, stores; on      *)
 (* MVP-8 a wrong-path load flushed in the middle of its line transfer leaves the line  *)
